@@ -21,9 +21,66 @@ pub fn frag_image() -> ImageSet {
     img
 }
 
+/// G9 geometry (512-byte clusters, 64-bit refcounts: refblock = 64 clusters, one
+/// refcount-table cluster = 64 refblocks = 2 MiB of host file) with `tables` L2 tables of guest space
+pub fn g9_wide(tables: u64) -> Geo {
+    Geo { name: "G9w", cluster_bits: 9, order: 6, version: 3, bs_bits: 9, l2_slice_bits: 9, rb_slice_bits: 9, tables, extra_clusters: 0 }
+}
+
+/// host clusters 0..used-1 in use (data clusters fill up), the next allocation is cluster `used`
+pub fn filled_image(name: &str, kind: &str, tables: u64, used: usize) -> ImageSet {
+    let g = g9_wide(tables);
+    let mut s = ImageSpec::new(g.cluster_bits, g.order, g.vsize());
+    let ncl = s.guest_clusters();
+    s.kinds = vec![GKind::Unalloc; ncl];
+    // largest number of data clusters whose image has at most `used` host clusters
+    let have = |n: usize, s: &mut ImageSpec| -> usize {
+        for c in 0..ncl {
+            s.kinds[c] = if c < n { GKind::Data } else { GKind::Unalloc };
+        }
+        crate::spec::build_image(s).bytes.len() >> g.cluster_bits
+    };
+    let (mut lo, mut hi) = (1usize, used.min(ncl));
+    while lo < hi {
+        let mid = (lo + hi + 1) / 2;
+        if have(mid, &mut s) <= used {
+            lo = mid;
+        } else {
+            hi = mid - 1;
+        }
+    }
+    let _ = have(lo, &mut s);
+    from_specs(name, kind, vec![s])
+}
+
+/// refblock 0 (64 clusters) is full but for its last two clusters
+pub fn rb_edge_image() -> ImageSet {
+    filled_image("G9w-rb-edge", "rb-edge", 3, 62)
+}
+
+/// 64 refblocks x 64 clusters = 4096 clusters is what the one-cluster refcount table covers; 4094 are in use
+pub fn rt_edge_image() -> ImageSet {
+    filled_image("G9w-rt-edge", "rt-edge", 140, 4094)
+}
+
+/// the header lists one L1 entry although the virtual size needs 192 (three L1 clusters)
+pub fn short_l1_image() -> ImageSet {
+    let g = g9_wide(192);
+    let mut s = ImageSpec::new(g.cluster_bits, g.order, g.vsize());
+    let ncl = s.guest_clusters();
+    s.kinds = vec![GKind::Unalloc; ncl];
+    s.kinds[0] = GKind::Data;
+    s.kinds[1] = GKind::Data;
+    s.short_l1 = true;
+    from_specs("G9w-short-l1", "shortl1", vec![s])
+}
+
 pub fn find_extra_image(name: &str) -> Option<ImageSet> {
     match name {
         "GF-frag" => Some(frag_image()),
+        "G9w-rb-edge" => Some(rb_edge_image()),
+        "G9w-rt-edge" => Some(rt_edge_image()),
+        "G9w-short-l1" => Some(short_l1_image()),
         _ => None,
     }
 }
